@@ -183,6 +183,11 @@ CONFIGS = {
 def factory(scenario):
     script = SCRIPTS[scenario["script"]] if "script" in scenario else scenario["ops"]
     cfg = CONFIGS[scenario["cfg"]] if isinstance(scenario.get("cfg"), str) else scenario.get("cfg", {})
+    if cfg.get("tickets") == "obtain":
+        # resumption: a first connection (default schedule) provides the session ticket; the connection
+        # under test resumes it and issues its "pre" writes as early data before the first transmit
+        cfg = dict(cfg)
+        cfg["tickets"] = netsim.obtain_tickets({k: v for k, v in cfg.items() if k in ("version", "chain", "retry")})
     return cfg, script, [_MON], {"max_steps": scenario.get("max_steps", 400),
                                  "deviations": tuple(scenario.get("dev", ("drop", "dup", "dupmid", "delay",
                                                                           "rebind", "late")))}, goal
@@ -272,6 +277,16 @@ def run(ctx):
                                                        "c_max_data": md, "c_max_stream_data": md}}
     for k in small:
         small[k]["dev"] = ("drop", "delay")
+    # early data: written before the first transmit on a resumed connection; the server's front end may
+    # answer the first flight with a Retry or a Version Negotiation packet, after which the client starts
+    # over - what it had written is still owed to the peer
+    zr = {}
+    for nm, extra in (("plain", {}), ("retry", {"retry": True}), ("vn", {"vn": True}), ("retry_v2", {"retry": True, "version": V2})):
+        zr["early_data_echo/%s" % nm] = {"ops": {"c": [W(0, 300, True, g="pre")], "s": [W(0, 700, True, g=("rx", 0, 1))]},
+                                         "cfg": dict(extra, tickets="obtain")}
+        zr["early_data_bulk/%s" % nm] = {"ops": {"c": [W(0, 3000, g="pre"), W(4, 10, True, g="pre"), W(0, 500, True)]},
+                                         "cfg": dict(extra, tickets="obtain")}
+    netcheck.explore_scenarios(ctx, "c01", zr, 1, "early_data_d1", sig_extra=sig_extra)
     netcheck.explore_scenarios(ctx, "c01", small, 2 if quick else 3, "small_windows", sig_extra=sig_extra)
     if not quick:
         cl = closure_scripts(2)
